@@ -9,6 +9,7 @@ witness `n = 5, idx = [3,1], vals = [30,10]`.
 -/
 import Pyiga.Proofs.Restrict
 import Pyiga.Proofs.Slice
+import Mathlib.Data.List.Sort
 
 namespace Pyiga.Props.C10
 open Pyiga.Restrict
@@ -164,6 +165,24 @@ theorem combine_bcs_value (bcs : List (List Nat × List β)) (ui : List Nat) (uv
   obtain ⟨h1, h2, h3⟩ := idxOf_first _ _ hm
   refine ⟨_, h1, h2, h3, ?_⟩
   simp [uniqueIndex, List.getD_eq_getElem?_getD, List.getElem?_map, List.getElem?_eq_getElem hk]
+
+/-- ★ **the combined dof set does not depend on the order of the conditions**: for any permutation of
+the list of `(indices, values)` pairs (`compute_dirichlet_bcs` lists its faces in the caller's order)
+`combine_bcs` returns the same index array. -/
+theorem combine_bcs_indices_order_independent (bcs bcs' : List (List Nat × List β)) (hp : bcs.Perm bcs')
+    (ui ui' : List Nat) (uv uv' : List β)
+    (h : combineBcs bcs = .ok (ui, uv)) (h' : combineBcs bcs' = .ok (ui', uv')) : ui = ui' := by
+  obtain ⟨hs, hm, _⟩ := combine_bcs_spec bcs ui uv h
+  obtain ⟨hs', hm', _⟩ := combine_bcs_spec bcs' ui' uv' h'
+  refine List.Pairwise.eq_of_mem_iff hs hs' (fun i => ?_)
+  rw [hm, hm']
+  constructor
+  · rintro ⟨bc, hb, hi⟩; exact ⟨bc, hp.mem_iff.mp hb, hi⟩
+  · rintro ⟨bc, hb, hi⟩; exact ⟨bc, hp.mem_iff.mpr hb, hi⟩
+
+example : combineBcs [([4, 1], [40, 10]), ([2, 1], [20, 11])] = .ok ([1, 2, 4], [10, 20, 40]) ∧
+    combineBcs [([2, 1], [20, 11]), ([4, 1], [40, 10])] = .ok ([1, 2, 4], [11, 20, 40]) := by
+  decide
 
 end combine
 
